@@ -173,7 +173,8 @@ impl LangInterpreter for French {
             }
             "million" | "millionième" if b.is_range_free(6, 8) => b.shift(6),
             "milliard" | "milliardième" => b.shift(9),
-            "et" if b.len() >= 2 => Err(Error::Incomplete),
+            // "et" links a ten to un / onze; right after "dix" (which blocks deux..six too) it ends the number
+            "et" if b.len() >= 2 && !blocked.contains(Excludable::DEUX) => Err(Error::Incomplete),
 
             _ => Err(Error::NaN),
         };
